@@ -61,6 +61,7 @@ struct Schedule
     int kind = 0;            // 0 full, 1 one byte, 2 half, 3 pattern
     std::vector<int> pat;
     long eio_at = -1;        // k-th read call (0-based) fails with EIO
+    bool eio_sticky = false; // every read from the eio_at-th on fails (a device that stays broken)
     long seekfail_at = -1;   // k-th seek call fails
     bool seekable = true;
 };
@@ -98,7 +99,7 @@ struct Channel
         IoCtx* c = io_ctx();
         long k = nread++;
         if (c) { ++c->reads; if (c->tracing) { c->trace.byte('r'); c->trace.u64(pos); c->trace.u64(n); } }
-        if (sch.eio_at >= 0 && k == sch.eio_at) { if (c) { ++c->eio_fired; c->eof_seen = true; } errno = EIO; return -1; }
+        if (sch.eio_at >= 0 && (k == sch.eio_at || (sch.eio_sticky && k > sch.eio_at))) { if (c) { ++c->eio_fired; c->eof_seen = true; } errno = EIO; return -1; }
         if (pos + n > high_water) high_water = pos + n;
         size_t avail = pos < data->size() ? data->size() - pos : 0;
         size_t m = deliver(n);
@@ -222,7 +223,13 @@ protected:
         if (gptr() < egptr()) return traits_type::to_int_type(*gptr());
         gbase_ = (long long)ch_->pos;
         long n = ch_->read(gbuf_.data(), gbuf_.size());
-        if (n <= 0) { setg(gbuf_.data(), gbuf_.data(), gbuf_.data()); return traits_type::eof(); }
+        if (n < 0)
+        {   // an I/O error is not an end of file: like libstdc++'s basic_filebuf, report it by throwing; the istream
+            // member that called us turns that into badbit (without eofbit)
+            setg(gbuf_.data(), gbuf_.data(), gbuf_.data());
+            throw std::ios_base::failure("sim::Streambuf::underflow: error reading the device");
+        }
+        if (n == 0) { setg(gbuf_.data(), gbuf_.data(), gbuf_.data()); return traits_type::eof(); }
         setg(gbuf_.data(), gbuf_.data(), gbuf_.data() + n);
         return traits_type::to_int_type(*gptr());
     }
